@@ -125,6 +125,8 @@ Flat(S, f, it, ps, pmin, pmax, inch) ==
                                    target |-> ElemTarget(S, e), ns |-> e.ns, xsd |-> "-"] >>
         [] p.k = "seq" -> Flat(S, f, it, p.ps, emin(p.min), MaxMul(p.max, pmax), FALSE)
         [] p.k = "choice" -> Flat(S, f, it, p.ps, IF PMin(p) = 0 THEN 0 ELSE pmin, MaxMul(PMax(p), pmax), TRUE)
+        \* xs:all: every member at most once, in any order; as the whole content of a type or of an extension
+        [] p.k = "all" -> Flat(S, f, it, p.ps, IF PMin(p) = 0 THEN 0 ELSE pmin, pmax, FALSE)
         [] OTHER -> <<>>)
      \o Flat(S, f, it, Tail(ps), pmin, pmax, inch)
 
@@ -211,4 +213,9 @@ Contains(S, a) ==
 RECURSIVE ContainsN(_, _, _)
 ContainsN(S, X, n) == IF n = 0 THEN X ELSE ContainsN(S, X \cup UNION {Contains(S, x) : x \in X}, n - 1)
 ByValueCycle(S) == \E a \in StructComps(S) : a \in ContainsN(S, Contains(S, a), Cardinality(StructComps(S)))
+
+(* XSD keeps elements and attributes in separate symbol spaces: one type may declare an element and an attribute of  *)
+(* the same name.  A Rust struct has one space of field names.                                                         *)
+MemberClash(S) == \E c \in StructComps(S) : c.k # "simple" /\
+   LET ms == ExpFields(S, FileNamed(S, c.f), c.it, BodyOf(c)) IN \E i, j \in 1..Len(ms) : i < j /\ ms[i].xml = ms[j].xml
 =======================================================================
